@@ -1,6 +1,7 @@
 (* C17 — rule files are read by structure alone; malformed ones are rejected, not trimmed.
    Model: C17/Model.v (line classifier + section assembler of MerchantEngine.parse/_add_rule and of
-   parse_sections, both parametrised by the ORACLE pyparse = "expr_parser.parse_expression accepts";
+   parse_sections — as they are AFTER the three C17 fixes — both parametrised by the ORACLE
+   pyparse = "expr_parser.parse_expression accepts";
    tiny step functions for get_all_rules / get_transforms / the views branch of load_config).
    The model is tied to /repo by the correspondence check of harness/c17.py on every run.
    Every theorem below quantifies over ALL files (lists of lines) and ALL oracles. *)
@@ -190,37 +191,29 @@ Theorem c17_reject_bad_priority :
 Proof. exact c17_reject_bad_priority_holds. Qed.
 Print Assumptions c17_reject_bad_priority.
 
-(* Invalid expressions.  FULL statement: whatever expression of the file the oracle rejects, the file is
-   rejected.  The faithful model REFUTES it: the right-hand side of a top-level `name = expr` or
-   `field.x = expr` line of a .rules file is stored without being parsed (the try/except around the
-   assignment in MerchantEngine.parse cannot fail).  What holds: every expression of a SECTION (its effective
-   match, every let binding, every effective field) is validated, and the error names the section. *)
-Definition c17_reject_invalid_expression_statement : Prop :=
-  forall pyparse ls e, In e (file_exprs_m ls) -> pyparse e = false -> is_ok (parse_merchants pyparse ls) = false.
+(* Invalid expressions.  FULL statement: whatever expression of the file the oracle rejects — the right-hand
+   side of a top-level `name = expr` / `field.x = expr` line, a section's effective match, any let binding, any
+   effective field — the file is rejected.  (History: before the fix "validate top-level expressions" the
+   faithful model refuted this with ["x = )("; "[A]"; "match: x"; "category: c"]; finding
+   C17/toplevel-expression-not-validated, now status fixed.) *)
+Theorem c17_reject_invalid_expression : reject_invalid_expression_statement.
+Proof. exact c17_reject_invalid_expression_holds. Qed.
+Print Assumptions c17_reject_invalid_expression.
 
-Theorem c17_reject_invalid_expression_refuted : ~ c17_reject_invalid_expression_statement.
-Proof.
-  intros H.
-  specialize (H (fun e => negb (String.eqb e ")(")) ["x = )("; "[A]"; "match: x"; "category: c"] ")(").
-  vm_compute in H. specialize (H (or_introl eq_refl) eq_refl). discriminate H.
-Qed.
-Print Assumptions c17_reject_invalid_expression_refuted.
-
-Theorem c17_reject_invalid_expression_partial :
+Theorem c17_invalid_expression_names_line :
   forall pyparse ls,
-    (forall sec e, In sec (sections_m ls) -> In e (section_exprs sec) -> pyparse e = false ->
-       is_ok (parse_merchants pyparse ls) = false) /\
+    (forall n, parse_merchants pyparse ls = Err n EInvalidTop ->
+       exists s, In (n, s) (preamble_m ls) /\ pre_check pyparse s = Some EInvalidTop) /\
     (forall n k, k = EInvalidLet \/ k = EInvalidField \/ k = EInvalidMatch ->
        parse_merchants pyparse ls = Err n k ->
        exists name ps e, In (n, name, ps) (sections_m ls) /\ pyparse e = false /\
          ((k = EInvalidLet /\ exists x, In (x, e) (lets_of (kvs ps))) \/
           (k = EInvalidField /\ exists x, In (x, e) (dict_of [] (fields_of (kvs ps)))) \/
           (k = EInvalidMatch /\ last_of KMatch (kvs ps) = Some e))) /\
-    (* views files: every filter and every variable, global or local, is validated at its own line *)
     (forall n0 name lines n s k, In (n0, name, lines) (sections_v ls) -> In (n, s) lines ->
        vline_check pyparse s = Some k -> is_ok (parse_views pyparse ls) = false).
-Proof. exact c17_reject_invalid_expression_partial_holds. Qed.
-Print Assumptions c17_reject_invalid_expression_partial.
+Proof. exact c17_invalid_expression_names_line_holds. Qed.
+Print Assumptions c17_invalid_expression_names_line.
 
 Theorem c17_reject_missing_filter :
   forall pyparse ls,
@@ -234,58 +227,45 @@ Print Assumptions c17_reject_missing_filter.
 (* ============================ no silent drop ================================================ *)
 (* "Every non-blank, non-comment line contributes to the result or causes an error", stated
    extensionally: in an accepted file no such line can be overwritten with garbage ("%%%": not blank, not a
-   comment, not a header, no ':' and no '=') without the outcome changing. *)
-Definition c17_no_silent_drop_statement : Prop :=
-  forall pyparse l1 l l2,
-    classify_m l <> Skip -> is_ok (parse_merchants pyparse (l1 ++ l :: l2)) = true ->
-    parse_merchants pyparse (l1 ++ garbage :: l2) <> parse_merchants pyparse (l1 ++ l :: l2).
+   comment, not a header, no ':' and no '=') without the outcome changing.
+   (History: before the fix "content before the first [Rule] header is an error" the faithful model refuted
+   this with [] / "category: Lost" / ["[A]"; "match: m"; "category: c"]; finding
+   C17/property-before-first-header-ignored, now status fixed.) *)
+Theorem c17_no_silent_drop : no_silent_drop_statement.
+Proof. exact c17_no_silent_drop_holds. Qed.
+Print Assumptions c17_no_silent_drop.
 
-(* REFUTED by the faithful model: a `key: value` line before the first [header] is passed over *)
-Theorem c17_no_silent_drop_refuted : ~ c17_no_silent_drop_statement.
-Proof.
-  intros H.
-  apply (H (fun _ => true) [] "category: Lost" ["[A]"; "match: m"; "category: c"]);
-    vm_compute; [discriminate|reflexivity|reflexivity].
-Qed.
-Print Assumptions c17_no_silent_drop_refuted.
-
-(* what holds: once a header has been seen no line is passed over (garbage there is an error naming that
-   very line); in a views file this holds everywhere *)
-Theorem c17_no_silent_drop_partial :
+(* sharper: the garbage line is an error naming that very line, in both kinds of file *)
+Theorem c17_no_silent_drop_exact :
   forall pyparse l1 l l2,
-    (in_section l1 = true -> is_ok (parse_merchants pyparse (l1 ++ l :: l2)) = true ->
-     parse_merchants pyparse (l1 ++ garbage :: l2) = Err (S (length l1)) EUnexpected) /\
+    (is_ok (parse_merchants pyparse (l1 ++ l :: l2)) = true ->
+     parse_merchants pyparse (l1 ++ garbage :: l2)
+     = Err (S (length l1)) (if in_section l1 then EUnexpected else EOutside)) /\
     (is_ok (parse_views pyparse (l1 ++ l :: l2)) = true ->
      parse_views pyparse (l1 ++ garbage :: l2) = Err (S (length l1)) VUnexpected).
-Proof. exact c17_no_silent_drop_partial_holds. Qed.
-Print Assumptions c17_no_silent_drop_partial.
+Proof. exact c17_no_silent_drop_exact_holds. Qed.
+Print Assumptions c17_no_silent_drop_exact.
 
 (* ============================ command level ================================================= *)
-Definition c17_load_error_is_reported_statement : Prop :=
-  forall pyparse csv_rules ls n k,
-    parse_merchants pyparse ls = Err n k -> exists m, get_all_rules pyparse csv_rules ls = Reported m.
+(* A .rules file that cannot be loaded is reported: get_all_rules and get_transforms hand the error (which
+   names the line) to the user on stderr before carrying on without the rules.
+   (History: before the fix both swallowed every exception; finding C17/load-error-swallowed, now fixed.) *)
+Theorem c17_load_error_is_reported : load_error_is_reported_statement.
+Proof. exact c17_load_error_is_reported_holds. Qed.
+Print Assumptions c17_load_error_is_reported.
 
-(* REFUTED: get_all_rules catches every exception of the .rules loader and falls through to the CSV
-   reader; nothing reaches the caller but a rule list (for a .rules text the CSV reader finds no
-   'Pattern' column: the empty list) *)
-Theorem c17_load_error_is_reported_refuted : ~ c17_load_error_is_reported_statement.
-Proof.
-  intros H.
-  destruct (H (fun _ => true) (fun _ => []) ["[Uber]"; "category: Transport"] 1 EMissingMatch eq_refl) as [m Hm].
-  vm_compute in Hm. discriminate Hm.
-Qed.
-Print Assumptions c17_load_error_is_reported_refuted.
-
-Theorem c17_load_error_is_reported_partial :
+Theorem c17_load_outcomes :
   forall pyparse csv_rules ls,
     (forall f, parse_merchants pyparse ls = Ok f ->
-       get_all_rules pyparse csv_rules ls = Loaded (map r_name (m_rules f))) /\
+       get_all_rules pyparse csv_rules ls = {| lr_value := map r_name (m_rules f); lr_reported := None |} /\
+       get_transforms pyparse ls = {| lr_value := m_transforms f; lr_reported := None |}) /\
     (forall n k, parse_merchants pyparse ls = Err n k ->
-       get_all_rules pyparse csv_rules ls = Loaded (csv_rules ls) /\ get_transforms pyparse ls = []) /\
-    (* the views file IS reported: load_config turns SectionParseError into a warning entry *)
-    (forall n k, parse_views pyparse ls = Err n k -> load_views pyparse ls = Reported n).
-Proof. exact c17_load_error_is_reported_partial_holds. Qed.
-Print Assumptions c17_load_error_is_reported_partial.
+       get_all_rules pyparse csv_rules ls = {| lr_value := csv_rules ls; lr_reported := Some n |} /\
+       get_transforms pyparse ls = {| lr_value := []; lr_reported := Some n |}) /\
+    (forall n k, parse_views pyparse ls = Err n k ->
+       load_views pyparse ls = {| lr_value := []; lr_reported := Some n |}).
+Proof. exact c17_load_outcomes_holds. Qed.
+Print Assumptions c17_load_outcomes.
 
 (* ============================ non-vacuity =================================================== *)
 Definition cr : string := String (ascii_of_nat 13) "".
@@ -332,7 +312,10 @@ Example c17_example_rejections :
   parse_views p ["[V]"; "filter: x"; "[W]"; "description: d"] = Err 3 VMissingFilter /\
   parse_views p ["[V]"; "filter: )("] = Err 2 VInvalidFilter /\
   parse_views p ["  [V]"; "filter: x"] = Err 1 VUnexpected /\
-  parse_views p ["filter: x"] = Err 1 VFilterOutside.
+  parse_views p ["filter: x"] = Err 1 VFilterOutside /\
+  parse_merchants p ["v = 1"; "category: Lost"; "[A]"; "match: m"; "category: c"] = Err 2 EOutside /\
+  parse_merchants p ["v = 1"; "x = )("; "[A]"; "match: x"; "category: c"] = Err 2 EInvalidTop /\
+  lr_reported (get_all_rules p (fun _ => []) ["[Uber]"; "category: Transport"]) = Some 1.
 Proof. vm_compute. repeat split; reflexivity. Qed.
 
 (* the hypotheses of the key-case and permutation theorems are satisfiable by non-trivial cases *)
